@@ -21,7 +21,7 @@ RULE = ("a case is one string through the real parser; families: grammar-generat
 ASSUMPTIONS = [
     "well-formed grammar = scheme://host:port forms and ':port' with canonical hosts (lower-case names, dotted quads) and explicit "
     "ports; bare 'host:port' is not in it (the URL parser reads 'host' as a scheme: Err, not a panic)",
-    "an airport code is well-formed when it is the ICAO code of an entry of data/airports.json that no earlier entry matches "
+    "an airport code is well-formed when it is the ICAO or IATA code of an entry of data/airports.json that no earlier entry matches "
     "(the lookup returns the first entry matching the string as an unanchored regular expression)",
     "serde_json::to_value(&source.address) is the endpoint the user gets",
 ]
@@ -48,6 +48,14 @@ def load_airports():
                 break
         if first == k:
             good.append((code, a["lat"], a["lon"]))
+        # the IATA code of the same airport, when no earlier entry matches it either
+        iata = a.get("iata", "")
+        if re.fullmatch(r"[A-Z]{3}", iata):
+            for j, fs in enumerate(fields):
+                if any(iata in x for x in fs):
+                    if j == k:
+                        good.append((iata, a["lat"], a["lon"]))
+                    break
     return good, fields
 
 
